@@ -207,3 +207,10 @@ contract('IO.send_reply#wire', qual='IO.send_reply', module=M, props=['C17'],
          ghost_after={'to_send = BytesIO()': ['_gwire = b""'],
                       "to_send.write(b''.join((code, b'-', line, b'\\r\\n')))": ['_gwire = _gwire + code + b"-" + line + b"\\r\\n"'],
                       "to_send.write(b''.join((code, b' ', lines[-1], b'\\r\\n')))": ['_gwire = _gwire + code + b" " + lines[len(lines) - 1] + b"\\r\\n"']})
+
+bounded(['C17'], 'bounded/reply_roundtrip.py',
+        'real Reply + IO.send_reply composed with real Reply.recv + IO.recv_reply: every generated reply (14 codes x 27 texts '
+        'incl. Unicode, embedded CR/LF, ESC-looking prefixes, empty inner lines x 3 enhanced-status modes) is parsed back to '
+        'the same code and CRLF-normalised text under 5 segmentations, sequences of 2 (thorough: 3) replies each consume '
+        'exactly their own bytes, enhanced-status class == code class; malformed/short input over {2 5 - SP TAB x CR LF} up '
+        'to length 5 (thorough: 6) ends as the reference parser says (reply / BadReply / ConnectionLost)')
